@@ -32,7 +32,7 @@ RULE = (
     "16 start problems (Problem / ContingentProblem / HierarchicalProblem / MultiAgentProblem x feature "
     "sets: timed assignment, timed increase, timed goal, durative action, trajectory constraint, "
     "action-cost metric, initial defaults, explicit initial values, action increase, event, epsilon); "
-    "BFS over edit sequences from a 17-edit alphabet (11 for multi-agent) applied to both sides (length "
+    "BFS over edit sequences from an 18-edit alphabet (11 for multi-agent) applied to both sides (length "
     "<= LB) or, after a both-prefix, to one side only (total length <= LO), the deepest level restricted "
     "to the 10 edits that touch conflict bookkeeping / metrics / initial values; de-duplicated by the pair "
     "of structural dumps; non-trivial = history whose last edit raised on some side or changed "
@@ -69,7 +69,7 @@ REPS = [
 EDITS = [
     "add_fluent_new", "add_fluent_dup", "add_object", "add_action_new", "add_action_dup", "add_goal",
     "tset_x", "tset_y", "tinc_x", "add_timed_goal", "add_traj", "add_metric", "set_init", "act_assign", "act_inc",
-    "dact_assign", "dact_inc",
+    "dact_assign", "dact_inc", "add_timed_goal_same",
 ]
 MA_EDITS = [
     "add_fluent_new", "add_fluent_dup", "add_object", "add_action_new", "add_action_dup", "add_goal",
@@ -296,6 +296,10 @@ def apply_edit(P, edit, cls):
         P.add_increase_effect(GST(1), x, 1)
     elif edit == "add_timed_goal":
         P.add_timed_goal(GST(2), b)
+    elif edit == "add_timed_goal_same":  # the interval the "tgoal" start problems already use
+        from unified_planning.model.timing import ClosedTimeInterval
+
+        P.add_timed_goal(ClosedTimeInterval(GST(1), GST(2)), p(P.object("o2")))
     elif edit == "add_traj":
         P.add_trajectory_constraint(em.AtMostOnce(em.FluentExp(b)))
     elif edit == "add_metric":
